@@ -692,7 +692,10 @@ def check_spatial(ctx, case):
     want = {}
     ambiguous = 0
     for v in vpos:
-        d = {c: float(_np.linalg.norm(v - cpos[c])) for c in cs}
+        if case["params"].get("distance") == "directional" and model != "OneDimSpatial":
+            d = {c: bp.directional_distance(v, cpos[c]) for c in cs}
+        else:
+            d = {c: float(_np.linalg.norm(v - cpos[c])) for c in cs}
         srt = sorted(cs, key=lambda c: d[c])
         if any(abs(d[srt[i]] - d[srt[i + 1]]) < 1e-12 for i in range(len(srt) - 1)):
             ambiguous += 1
@@ -913,7 +916,9 @@ def run(ctx):
         if i % 4 == 1:
             model = rnd.choice(bp.SPATIAL_MODELS)
             cs = [f"k{j}" for j in range(rnd.randint(1, 5))]
-            c = {"kind": "spatial", "model": model, "params": {"candidates": cs, "dim": rnd.choice([1, 2, 3])}, "N": rnd.choice([1, 5, 20]),
+            c = {"kind": "spatial", "model": model, "params": {"candidates": cs, "dim": rnd.choice([1, 2, 3]),
+                                                              "distance": rnd.choice(["euclid", "directional"])},
+                 "N": rnd.choice([1, 5, 20]),
                  "seed": rnd.randrange(10 ** 6)}
             if model == "ClusteredSpatial":
                 c["by_cand"] = {x: rnd.randint(0, 3) for x in cs}
